@@ -334,6 +334,24 @@ fn fuzz_stage(ctx: &mut Ctx, exe: &Path) {
         workers, runs, nseeds, execs, checked, known_hits, corpus_files
     ));
     *ctx.stats.classes.entry("engine:libfuzzer-executions".to_string()).or_insert(0) += execs;
+    // a few inputs of the final corpus as samples: the ones libFuzzer kept last
+    {
+        let mut files: Vec<(std::time::SystemTime, PathBuf)> = std::fs::read_dir(&corpus)
+            .map(|rd| rd.filter_map(|e| e.ok()).filter_map(|e| Some((e.metadata().ok()?.modified().ok()?, e.path()))).collect())
+            .unwrap_or_default();
+        files.sort();
+        for (_, f) in files.iter().rev().take(4) {
+            if let Ok(data) = std::fs::read(f) {
+                let outcome = match util::catch(|| vp::fuzz_entry::run(&id, &data)) {
+                    Ok(Some(Ok(ev))) => format!("checked; non-trivial={} classes={:?}", ev.nontrivial, ev.classes),
+                    Ok(Some(Err(f))) => format!("FAILS: {}", f.signature),
+                    Ok(None) => "does not decode to a case".to_string(),
+                    Err(pm) => format!("panic: {}", pm),
+                };
+                ctx.samples.push(json!({"sub": "fuzz", "engine": "libfuzzer", "mode_byte": data.first().copied().unwrap_or(0), "input": mv::clip(&mv::bytes_lossy(&data), 160), "outcome": outcome}));
+            }
+        }
+    }
     // saved inputs
     let mut arts: Vec<PathBuf> = std::fs::read_dir(&art).map(|rd| rd.filter_map(|e| e.ok().map(|e| e.path())).collect()).unwrap_or_default();
     arts.sort();
